@@ -166,3 +166,34 @@ func H_C06_gr4j_kernel_x4_1p5() { c06gr4j(1.5, 2, 3) }
 // H_C06_gr4j_kernel_x4_1: x4 = 1 (UH lengths 1 and 2).
 //vsym:prop=C06 tier=quick ints=int floats=real timeout=120
 func H_C06_gr4j_kernel_x4_1() { c06gr4j(1, 1, 2) }
+
+// H_C06_known_sacramento_uh: the concrete scenario of the known finding
+// C06-sacramento-unit-hydrograph-buffer-not-a-state.  Sacramento routes its channel inflow
+// through a unit hydrograph whose pipeline `qq` is a local of the kernel: it is not among the six
+// returned states, so a continued run starts with an empty pipeline.  A 30 mm storm on day 1 with
+// ordinates 0.5/0.5: the uninterrupted run delivers the second half of the storm's quick flow on
+// day 2, the run continued from the returned states does not.
+//vsym:prop=C06 tier=quick ints=int floats=real timeout=60 unwind=200 maxruns=50
+func H_C06_known_sacramento_uh() {
+	two := func(a, b float64) data.ND1Float64 {
+		x := data.NewArray1DFloat64(2)
+		x.Set1(0, a)
+		x.Set1(1, b)
+		return x
+	}
+	run := func(rain, pet data.ND1Float64, s [6]float64) ([6]float64, data.ND1Float64) {
+		n := rain.Len1()
+		aet, ro, imp, surf, bf := rrOut(n), rrOut(n), rrOut(n), rrOut(n), rrOut(n)
+		a, b, c, d, e, f := sacramento(rain, pet, s[0], s[1], s[2], s[3], s[4], s[5],
+			0.06, 0.05, 0.3, 50, 40, 130, 25, 60, 0.06, 1.0, 40, 0, 0, 0.01, 0, 0, 0.3,
+			0.5, 0.5, 0, 0, 0, aet, ro, imp, surf, bf)
+		return [6]float64{a, b, c, d, e, f}, ro
+	}
+	vsym.Reach("about-to-run")
+	var zero [6]float64
+	_, whole := run(two(30, 0), two(0, 0), zero)
+	s1, first := run(rrOne(30), rrOne(0), zero)
+	_, second := run(rrOne(0), rrOne(0), s1)
+	vsym.AssertNear(first.Get1(0), whole.Get1(0), 1e-9, 1e-9, "first-day-equal")
+	vsym.AssertNear(second.Get1(0), whole.Get1(1), 1e-9, 1e-9, "continued-run-delivers-the-routed-flow-of-the-previous-segment")
+}
